@@ -75,6 +75,13 @@ def sort_names(names, ranks=None):
 
     # rank None in the list = constructed without a rank argument (the class default)
     scs = [(Scaffold(n) if (ranks and ranks[i] is None) else Scaffold(n, rank=(ranks[i] if ranks else 0))) for i, n in enumerate(names)]
+    if ranks and all(r is not None for r in ranks) and len(names) % 2:
+        # the remapper's own scaffold class (an assembly of OverlapResults is sorted the same way), rank given
+        # to the constructor
+        from tola.assembly.fragment import Fragment
+        from tola.assembly.overlap_result import OverlapResult
+
+        scs = [OverlapResult(Fragment("b", 1, 10, 1), [Fragment("c", 1, 10, 1)], 1, 10, name=n, rank=ranks[i]) for i, n in enumerate(names)]
     a = Assembly("a", scaffolds=list(scs))
     if len({n for n in names}) == len(names) and len(names) % 3 == 0:
         # the indexed flavour of an assembly sorts like any other (it keeps its scaffolds in a dict)
@@ -127,6 +134,13 @@ def check_set(ctx, names, ranks=None, perms=6, rng=None):
         elif keys != ref_keys:
             ctx.violation("order-depends-on-initial-permutation", f"{nm} -> {[s.name for s in by_name]}", case)
             return
+        # the rank that orders a scaffold is the rank it was given
+        if rk and len(set(nm)) == len(nm):
+            given = dict(zip(nm, rk))
+            wrong = [(x.name, x.rank, given[x.name]) for x in smart if given[x.name] is not None and x.rank != given[x.name]]
+            if wrong:
+                ctx.violation("scaffold-rank-differs-from-the-rank-it-was-given", f"(name, rank, given) {wrong[:4]} ({type(smart[0]).__name__} objects)", case)
+                return
         # rank first, then natural key
         sk = [(s.rank, Assembly.name_natural_key(s)) for s in smart]
         if any(a > b for a, b in zip(sk, sk[1:])) or sorted(s.name for s in smart) != sorted(nm):
